@@ -43,3 +43,12 @@ Print Assumptions C12_fresh_object_shares_nothing.
 Theorem C12_sharing_symmetric : forall h a b, shares h a b = [] -> shares h b a = [].
 Proof. exact shares_nil_sym. Qed.
 Print Assumptions C12_sharing_symmetric.
+
+(* a deep copy into planned fresh containers (RDMs.copy, Dataset.copy, deepcopy inside calc_rdm) leaves the source readable
+   exactly as before and shares nothing with it *)
+Theorem C12_deep_copy_is_independent : forall h o f,
+  well_formed h o = true -> (forall l, In l (all_fresh f) -> ~ In l (dom h)) ->
+  let h' := fst (deep_copy h o f) in let o' := snd (deep_copy h o f) in
+  content h' o = content h o /\ shares h' o' o = [].
+Proof. exact deep_copy_is_independent. Qed.
+Print Assumptions C12_deep_copy_is_independent.
